@@ -5,4 +5,5 @@ import (
 	_ "verif/harness/placelab"
 	_ "verif/harness/procluster"
 	_ "verif/harness/smlab"
+	_ "verif/harness/synclab"
 )
